@@ -8,9 +8,10 @@ import HexVerif.Lemmas.XcmpExec
 namespace Hex.C01s
 open Hex Hex.X Hex.Xcmp
 
-/-- Expressions of stage (2): literals, names, monadic and diadic operators. -/
+/-- Expressions of stage (2): literals (numbers, truth values, strings), names, subscripts, monadic and
+    diadic operators. -/
 def pureE : X.Expr → Bool
-  | .num _ | .bool _ | .name _ => true
+  | .num _ | .bool _ | .name _ | .str _ => true
   | .un _ e => pureE e
   | .bin _ l r => pureE l && pureE r
   | .sub _ i => pureE i
@@ -154,6 +155,23 @@ theorem eval_name (fuel : Nat) (xc : X.Ctx) (n : String) (σ : X.St) (r : Val) (
     obtain ⟨h1, h2⟩ := liftE_ok _ _ _ _ h
     subst h2
     exact ⟨rfl, h1⟩
+
+/-- A string literal: its packed words. -/
+theorem eval_str (fuel : Nat) (xc : X.Ctx) (bs : List Byte) (σ : X.St) (r : Val) (σ' : X.St)
+    (h : X.eval (fuel + 1) xc (.str bs) σ = .ok r σ') :
+    ∃ ws, X.tick xc σ = some σ' ∧ X.packString bs = .ok ws ∧ r = .arr (.lit ws) := by
+  unfold X.eval at h
+  cases ht : X.tick xc σ with
+  | none => rw [ht] at h; simp at h
+  | some st =>
+    rw [ht] at h
+    simp only at h
+    cases hp : X.packString bs with
+    | error e => rw [hp] at h; simp [X.liftE, Res.bind] at h
+    | ok ws =>
+      rw [hp] at h
+      simp only [X.liftE, Res.bind, Res.ok.injEq] at h
+      exact ⟨ws, by rw [← h.2], rfl, h.1.symm⟩
 
 /-- A subscript: the index, then the array the name denotes, then the element. -/
 theorem eval_sub (fuel : Nat) (xc : X.Ctx) (n : String) (i : X.Expr) (σ : X.St) (r : Val) (σ' : X.St)
@@ -333,7 +351,7 @@ theorem eval_pure (xc : X.Ctx) : ∀ (fuel : Nat) (e : X.Expr) (σ : X.St) (v : 
           rcases h4 with ⟨_, hv, hs⟩ | ⟨_, b, h5, _, hv⟩
           · subst hs; exact (tick_same _ _ _ h1).trans (ih _ _ _ _ hp.1 h2)
           · exact ((tick_same _ _ _ h1).trans (ih _ _ _ _ hp.1 h2)).trans (ih _ _ _ _ hp.2 h5)
-    | str bs => simp [pureE] at hp
+    | str bs => obtain ⟨_, h1, _⟩ := eval_str _ _ _ _ _ _ h; exact tick_same _ _ _ h1
     | sub n i =>
       simp only [pureE] at hp
       obtain ⟨st, iv, ar, w, h1, h2, _⟩ := eval_sub _ _ _ _ _ _ _ h
@@ -458,7 +476,7 @@ theorem annot_sound (ρ : String → Option Word) (xc : X.Ctx) : ∀ (fuel : Nat
                 rw [hvv, ← hc, ← ea, ← eb, ha0]
                 simp only [foldBin]
                 rcases isBool_cases b hbb with hb | hb <;> simp [hb]
-    | str bs => simp [pureE] at hp
+    | str bs => simp [annotate] at hc
     | sub n i => simp [annotate] at hc
     | call f args => simp [pureE] at hp
     | syscall id args => simp [pureE] at hp
